@@ -30,6 +30,10 @@ pub(crate) mod gate {
     type Task = Box<dyn FnOnce() + Send + 'static>;
 
     pub(crate) static CLOSED: AtomicBool = AtomicBool::new(false);
+    /// With the gate closed: for each successive spawn, whether the task runs at once (i.e.
+    /// completes before the spawning thread continues) instead of being queued
+    pub(crate) static RUN_NOW: Mutex<std::collections::VecDeque<bool>> =
+        Mutex::new(std::collections::VecDeque::new());
     pub(crate) static QUEUE: Mutex<Vec<Option<Task>>> = Mutex::new(Vec::new());
     pub(crate) static HANDLES: Mutex<Vec<JoinHandle<()>>> = Mutex::new(Vec::new());
 
@@ -39,7 +43,14 @@ pub(crate) mod gate {
         F: FnOnce() + Send + 'static,
     {
         if CLOSED.load(Ordering::SeqCst) {
-            QUEUE.lock().unwrap().push(Some(Box::new(f)));
+            let now = RUN_NOW.lock().unwrap().pop_front().unwrap_or(false);
+            if now {
+                // keeps the task numbering stable
+                QUEUE.lock().unwrap().push(None);
+                f();
+            } else {
+                QUEUE.lock().unwrap().push(Some(Box::new(f)));
+            }
         } else {
             HANDLES.lock().unwrap().push(std::thread::spawn(f));
         }
@@ -71,6 +82,7 @@ pub(crate) mod gate {
 
     pub(crate) fn reset() {
         QUEUE.lock().unwrap().clear();
+        RUN_NOW.lock().unwrap().clear();
     }
 
     pub(crate) fn join_all() {
@@ -196,6 +208,10 @@ pub(crate) fn run() -> Result<(), Box<dyn std::error::Error>> {
                     cmd["closed"].as_bool().unwrap_or(true),
                     std::sync::atomic::Ordering::SeqCst,
                 );
+                if let Some(a) = cmd["run_now"].as_array() {
+                    *gate::RUN_NOW.lock().unwrap() =
+                        a.iter().map(|b| b.as_bool().unwrap_or(false)).collect();
+                }
                 json!({"ok": true})
             }
             "config" => {
